@@ -62,6 +62,41 @@ TIES = {
    'bp-continue-form': ed(GT, ("        if values and is_valid_field_name(key):\n            assert len(values) == 1\n            value = values[0].strip(' \\t')\n            yield {key: value}\n        else:\n            yield line", "        if values and is_valid_field_name(key):\n            assert len(values) == 1\n            value = values[0].strip(' \\t')\n            yield {key: value}\n            continue\n        yield line")),
    'bp-comments': ed(GT, ("    lines = s.split('\\n')\n    if lines[-1] == '':", "    # the lines of a header\n    lines = s.split('\\n')\n    # a final newline terminates the last line:\n    if lines[-1] == '':")),
   }},
+ 'hdrchk': {
+  'translators': ['domains', 'gettexthdr', 'hdrchk'], 'module': 'I18n.Props.C15Tie', 'tests': ['tests/blackbox_tests'],
+  'edits': {
+   'seeded/C15-a': seeded('C15-a'),
+   'seeded/C15-c': seeded('C15-c'),
+   'pj-dup-threshold': ed(CK, ("        if len(project_id_versions) > 1:", "        if len(project_id_versions) > 2:")),
+   'pj-boilerplate-set': ed(CK, ("            if project_id_version in {'PACKAGE VERSION', 'PROJECT VERSION'}:", "            if project_id_version in {'PACKAGE VERSION'}:")),
+   'pj-version-only-if-name': ed(CK, ("                if not re.search(r'[0-9]', project_id_version):", "                elif not re.search(r'[0-9]', project_id_version):")),
+   'pj-no-sorted-set': ed(CK, ("            project_id_versions = sorted(set(project_id_versions))", "            project_id_versions = sorted(project_id_versions)")),
+   'rp-empty-test-dropped': ed(CK, ("        if report_msgid_bugs_tos == ['']:\n            report_msgid_bugs_tos = []\n", "")),
+   'rp-scheme-any': ed(CK, ("                if uri_scheme == '':\n                    self.tag('invalid-report-msgid-bugs-to', report_msgid_bugs_to)", "                if uri_scheme != 'http':\n                    self.tag('invalid-report-msgid-bugs-to', report_msgid_bugs_to)")),
+   'rp-valueerror-silent': ed(CK, ("                    # e.g. \"http://[foo\" (unbalanced bracket in the netloc)\n                    uri_scheme = ''", "                    uri_scheme = 'invalid'")),
+   'rp-boilerplate-before-special': ed(CK, ("            elif domains.is_email_in_special_domain(email_address):\n                self.tag('invalid-report-msgid-bugs-to', report_msgid_bugs_to)\n            elif email_address == 'EMAIL@ADDRESS':\n                self.tag('boilerplate-in-report-msgid-bugs-to', report_msgid_bugs_to)",
+                                                 "            elif email_address == 'EMAIL@ADDRESS':\n                self.tag('boilerplate-in-report-msgid-bugs-to', report_msgid_bugs_to)\n            elif domains.is_email_in_special_domain(email_address):\n                self.tag('invalid-report-msgid-bugs-to', report_msgid_bugs_to)")),
+   'rp-dotless-dropped': ed(CK, ("            elif domains.is_email_in_dotless_domain(email_address):\n                self.tag('invalid-report-msgid-bugs-to', report_msgid_bugs_to)\n", "")),
+   'rp-tag-extra-address': ed(CK, ("            elif email_address == 'EMAIL@ADDRESS':\n                self.tag('boilerplate-in-report-msgid-bugs-to', report_msgid_bugs_to)", "            elif email_address == 'EMAIL@ADDRESS':\n                self.tag('boilerplate-in-report-msgid-bugs-to', email_address)")),
+   'tr-template-test-dropped': ed(CK, ("            elif translator_email == 'EMAIL@ADDRESS':\n                if not ctx.is_template:\n                    self.tag('boilerplate-in-last-translator', translator)", "            elif translator_email == 'EMAIL@ADDRESS':\n                self.tag('boilerplate-in-last-translator', translator)")),
+   'tr-emails-after-test': ed(CK, ("            translator_emails[translator_email] = translator\n            if '@' not in translator_email:\n                self.tag('invalid-last-translator', translator)\n            elif domains.is_email_in_special_domain(translator_email):", "            if '@' not in translator_email:\n                self.tag('invalid-last-translator', translator)\n                continue\n            translator_emails[translator_email] = translator\n            if domains.is_email_in_special_domain(translator_email):")),
+   'tr-emails-keyed-by-value': ed(CK, ("            translator_emails[translator_email] = translator\n", "            translator_emails[translator] = translator_email\n")),
+   'tm-boilerplate-set': ed(CK, ("            elif team_email in {'LL@li.org', 'EMAIL@ADDRESS'}:", "            elif team_email in {'EMAIL@ADDRESS'}:")),
+   'tm-equal-before-dotless': ed(CK, ("            elif domains.is_email_in_dotless_domain(team_email):\n                self.tag('invalid-language-team', team)\n            else:\n                translator = translator_emails.get(team_email)\n                if translator is not None:\n                    self.tag('language-team-equal-to-last-translator', team, translator)",
+                                          "            else:\n                translator = translator_emails.get(team_email)\n                if translator is not None:\n                    self.tag('language-team-equal-to-last-translator', team, translator)\n                elif domains.is_email_in_dotless_domain(team_email):\n                    self.tag('invalid-language-team', team)")),
+   'tm-no-at-reported': ed(CK, ("                # self.tag('invalid-language-team', translator)\n                pass", "                self.tag('invalid-language-team', team)")),
+   'tm-dup-elif-to-if': ed(CK, ("            teams = sorted(set(teams))\n        elif len(teams) == 0:", "            teams = sorted(set(teams))\n        if len(teams) == 0:")),
+   # behaviour-preserving
+   'bp-rename': ed(CK, ("        for team in teams:\n            team_name, team_email = parse_address(team)\n            del team_name\n            if '@' not in team_email:", "        for team in teams:\n            name_of_team, team_email = parse_address(team)\n            del name_of_team\n            if '@' not in team_email:"),
+                       ("        for project_id_version in project_id_versions:\n            if project_id_version in {'PACKAGE VERSION', 'PROJECT VERSION'}:\n                self.tag('boilerplate-in-project-id-version', project_id_version)\n            else:\n                if not re.search(r'[^_\\d\\W]', project_id_version):\n                    self.tag('no-package-name-in-project-id-version', project_id_version)\n                if not re.search(r'[0-9]', project_id_version):\n                    self.tag('no-version-in-project-id-version', project_id_version)",
+                        "        for piv in project_id_versions:\n            if piv in {'PACKAGE VERSION', 'PROJECT VERSION'}:\n                self.tag('boilerplate-in-project-id-version', piv)\n            else:\n                if not re.search(r'[^_\\d\\W]', piv):\n                    self.tag('no-package-name-in-project-id-version', piv)\n                if not re.search(r'[0-9]', piv):\n                    self.tag('no-version-in-project-id-version', piv)")),
+   'bp-set-order': ed(CK, ("{'PACKAGE VERSION', 'PROJECT VERSION'}", "{'PROJECT VERSION', 'PACKAGE VERSION'}"), ("{'LL@li.org', 'EMAIL@ADDRESS'}", "{'EMAIL@ADDRESS', 'LL@li.org'}")),
+   'bp-flip-comparison': ed(CK, ("        if len(project_id_versions) > 1:", "        if 1 < len(project_id_versions):"), ("            elif translator_email == 'EMAIL@ADDRESS':", "            elif 'EMAIL@ADDRESS' == translator_email:")),
+   'bp-temp-scheme': ed(CK, ("                if uri_scheme == '':\n                    self.tag('invalid-report-msgid-bugs-to', report_msgid_bugs_to)", "                no_scheme = uri_scheme == ''\n                if no_scheme:\n                    self.tag('invalid-report-msgid-bugs-to', report_msgid_bugs_to)")),
+   'bp-nested-else': ed(CK, ("            elif domains.is_email_in_dotless_domain(email_address):\n                self.tag('invalid-report-msgid-bugs-to', report_msgid_bugs_to)\n", "            else:\n                if domains.is_email_in_dotless_domain(email_address):\n                    self.tag('invalid-report-msgid-bugs-to', report_msgid_bugs_to)\n")),
+   'bp-independent-reorder': ed(CK, ("        translator_emails = {}\n        for translator in translators:", "        translator_emails = {}\n        # addresses seen so far:\n        for translator in translators:"),
+                                    ("            translator_name, translator_email = parse_address(translator)\n            del translator_name\n", "            translator_name, translator_email = parse_address(translator)\n")),
+  }},
 }
 tie_edits.TIES.update(TIES)
 
